@@ -61,6 +61,15 @@ LETTERS = [a + b for a in "abcdefghjkmnpqrstuvwyz" for b in ("", "1")]
 # ---------------------------------------------------------------------------------------------
 # query generator (typed by construction)
 # ---------------------------------------------------------------------------------------------
+WARM_DISTINCT = [
+    "Select(Select(ds, lambda e: e.x + {i}), lambda y: y * 2)",
+    "Where(Select(ds, lambda e: e.w - {i}), lambda v: v > {i})",
+    "Select(ds, lambda e: (lambda a: a + {i})(e.x))",
+    "SelectMany(Select(ds, lambda e: e.jets), lambda js: Select(js, lambda j: j.pt + {i}))",
+    "Select(Select(ds, lambda e: (e.x, {i})), lambda t: t[0] + t[1])",
+]
+
+
 class Gen:
     def __init__(self, rng, names, reuse=0.0, helpers=None):
         self.rng = rng
@@ -564,6 +573,9 @@ def generate(prop, seed, tier="quick", fault_free=False):
     # fault kinds added later draw from their own PRNG sub-stream: the cases of runs that do not
     # enable them are exactly what they were before
     x = st.get("faults2")
+    if not fault_free and x.random() < 0.05:
+        at = x.randrange(len(ops) + 1)
+        ops = ops[:at] + [{"op": "warm", "k": x.choice([100, 300, 300, 700]), "distinct": True}] + ops[at:]
     if not fault_free:
         # object lifetime: queries die after they were served; inside the package `id()` hands
         # the numbers of dead objects to new ones (sim/simid.py)
@@ -919,9 +931,13 @@ class Node:
                     self.events.append(f"bad|{type(ex).__name__}")
             elif k == "warm":
                 wa = parse_query(WARM_QUERY)
-                for _ in range(op["k"]):
+                for i in range(op["k"]):
+                    if op.get("distinct"):
+                        # volume: hundreds of DIFFERENT queries (whatever is kept per query
+                        # fills up, wraps around or gets evicted)
+                        wa = parse_query(WARM_DISTINCT[i % len(WARM_DISTINCT)].format(i=i))
                     simplify(self.mod, wa)
-                self.stat("fault_warm_up")
+                self.stat("fault_warm_up_distinct" if op.get("distinct") else "fault_warm_up")
                 self.events.append(f"warm|{counter_of(self.mod)}")
 
 
